@@ -117,7 +117,10 @@ def body(mc, p):
     def submit(i):
         fs[i] = ex.submit(fns[i], ("a", i), kw=("k", i))
         fs[i].add_done_callback(lambda f, i=i: mc.emit("done", i=i))
-    if p["nthreads"] == 1:
+    if p.get("single"):
+        submit(0)                   # one submission only: keeps the d=3 exploration small
+        fs[1] = fs[0]
+    elif p["nthreads"] == 1:
         submit(0)
         submit(1)
     else:
@@ -150,6 +153,8 @@ def check(x):
     if not x.require(x.end == "done" and "res" in x.obs, "bad-ending", end=x.end, depth=len(p["layers"])):
         return
     for i, sk in enumerate(p["scripts"]):
+        if p.get("single") and i == 1:
+            break
         want, ncalls = ref_eval(p["layers"], SCRIPTS[sk], p["faulty"], i, p.get("efn"), p.get("flatfail"))
         state, val, same = x.obs["res"][i]
         if want[0] == "ok":
@@ -185,11 +190,22 @@ harness("c01.d6", prop="C01", traced=(), horizon=800,
         params=_params((6,), bases=("sync",), pairs=(("Eok", "X"),), faulty=False, threads=(1,)))(body)
 oracle("c01.d6")(check)
 
+MF = ("map", "flat_map", "throttle", "timeout")
+harness("c01.lines", prop="C01", traced=("common", "map"), horizon=120,
+        params=[dict(layers=(a, b), base="tp", scripts=(sc, "ok"), faulty=None, nthreads=1)
+                for a in MF for b in MF for sc in ("X", "ok")])(body)
+oracle("c01.lines")(check)
+
+harness("c01.narrow", prop="C01", traced=("common", "map"), horizon=120,
+        params=[dict(layers=("map", "map"), base="tp", scripts=("X", "ok"), faulty=None, nthreads=1, single=True),
+                dict(layers=("map", "map"), base="tp", scripts=("ok", "ok"), faulty=None, nthreads=1, single=True)])(body)
+oracle("c01.narrow")(check)
+
 PLAN = {
     "quick": [dict(harness="c01.d1", bound=2), dict(harness="c01.d2", bound=1, select=lambda p: p["nthreads"] == 2 or p["faulty"] is not None),
-              dict(harness="c01.d2", bound=0), dict(harness="c01.d3", bound=0)],
+              dict(harness="c01.d2", bound=0), dict(harness="c01.d3", bound=0), dict(harness="c01.lines", bound=1), dict(harness="c01.narrow", bound=3)],
     "thorough": [dict(harness="c01.d1", bound=3), dict(harness="c01.d2", bound=2, select=lambda p: p["nthreads"] == 2),
                  dict(harness="c01.d2", bound=1), dict(harness="c01.d3", bound=1, select=lambda p: p["scripts"] == ("Eok", "ok")),
                  dict(harness="c01.d3", bound=0), dict(harness="c01.d4", bound=0), dict(harness="c01.d5", bound=0),
-                 dict(harness="c01.d6", bound=0)],
+                 dict(harness="c01.d6", bound=0), dict(harness="c01.lines", bound=2), dict(harness="c01.narrow", bound=3)],
 }
